@@ -94,13 +94,15 @@ class C16(Prop):
         "saveEscaped_sub_sizeEscaped", "restore_swap_inverts_save", "restore_swap_sites_agree",
         "save_escapes_quote_backslash_cr", "tmpName_ne_file", "save_failure_leaves_no_tmp", "save_success_leaves_no_tmp",
         "restore_nesting_bounded", "nesting_test_only_refuses", "saveObject_leaves_no_tmp", "saveObject_error_touches_nothing",
-        "saveObject_error_iff_too_deep", "tmpName_eq", "tmpName_never_a_save_file")]
+        "saveObject_error_iff_too_deep", "tmpName_eq", "tmpName_never_a_save_file", "mapping_insert_spec",
+        "restore_mapping_all_found", "hash_sites_as_modelled")]
     witness_theorems = ["NV.C16.Witness." + t for t in (
         "float_keys_collapse", "roundtripFloatKeys_Full_false", "cr_round_trips", "stray_byte_in_array_ok",
         "inf_is_written_as_number", "same_name_saved", "same_name_variables")]
     consts = [("maxSaveSvalueDepth", "MAX_SAVE_SVALUE_DEPTH"), ("nameStatic", "NAME_STATIC"),
-              ("saveExtLen", "sizeof(SAVE_EXTENSION) - 1"), ("saveExt0", "SAVE_EXTENSION[0]"), ("saveExt1", "SAVE_EXTENSION[1]")]
-    const_headers = ["lib/efuns/options.h", "lib/lpc/program.h"]
+              ("saveExtLen", "sizeof(SAVE_EXTENSION) - 1"), ("saveExt0", "SAVE_EXTENSION[0]"), ("saveExt1", "SAVE_EXTENSION[1]"),
+              ("fillPercent", "FILL_PERCENT"), ("maxTableSize", "MAX_TABLE_SIZE"), ("mapHashTableSize", "MAP_HASH_TABLE_SIZE")]
+    const_headers = ["lib/efuns/options.h", "lib/lpc/program.h", "lib/lpc/mapping.h"]
     quick_n = 1200
     thorough_n = 20000
     search_n = 1500
@@ -233,7 +235,29 @@ class C16(Prop):
         m2 = re.search(r'"MaxArraySize",\s*\d+,\s*(\d+)\)', rc)
         if not m2:
             raise X.TieBroken("const:MaxArraySize", "default of MaxArraySize not found in lib/rc/rc.cpp")
+        # hash-table sites of restore_mapping / growMap / the lookup, as modelled in NV/C16/Hash.lean
+        rm = section("static int restore_mapping (char **str", "static int restore_class", "restore_mapping")
+        maph = open(os.path.join(E.REPO, "lib/lpc/mapping.h")).read()
+        ws = lambda t: re.sub(r"\s+", " ", t)
+        rmw, mapw = ws(rm), ws(mapc)
+        msh = re.search(r"#define\s+MAP_POINTER_HASH\(x\)\s+\(\(intptr_t\)x >> (\d+)\)", maph)
+        hash_sites = {
+            "bucket = hash & mask": "oi = (int)MAP_POINTER_HASH (key.u.number); i = oi & mask; if ((elt2 = elt = a[i]))" in rmw,
+            "growth branch": ("else if (!(--m->unfilled)) { if (growMap (m)) { a = m->table; if (oi & ++mask) elt2 = a[i |= mask]; "
+                              "mask <<= 1; mask--; }") in rmw,
+            "link": "(a[i] = elt)->next = elt2;" in rmw,
+            "initial mask": "a = m->table; /* we'll leak */ mask = m->table_size;" in rmw,
+            "growMap split": "if (node_hash (elt) & oldsize) { *eltp = elt->next; if (!(elt->next = *b)) m->unfilled--; *b = elt; elt = *eltp; }" in mapw,
+            "growMap limit": "if (newsize > MAX_TABLE_SIZE) return 0;" in mapw,
+            "lookup": "i = svalue_to_int (lv) & m->table_size; for (elt = a[i]; elt; elt = elt->next) { if (msameval (elt->values, lv)) return elt; }" in mapw,
+            "hash shift": bool(msh),
+        }
         return "\n".join([
+            "/-- the hash-table statements of restore_mapping (object.c), growMap and node_find_in_mapping (mapping.c) read\n"
+            "    as NV/C16/Hash.lean models them: %s -/\ndef hashSitesAsModelled : Bool := %s\n"
+            "/-- `MAP_POINTER_HASH(x) ((intptr_t)x >> N)` -/\ndef hashShift : Nat := %s" %
+            (", ".join("%s=%s" % (k, "yes" if v else "NO") for k, v in hash_sites.items()),
+             "true" if all(hash_sites.values()) else "false", msh.group(1) if msh else "0"),
             "/-- C: `MAX_SAVE_EXPONENT` (lib/lpc/object.c) -/\ndef maxSaveExponent : Nat := %s" % define("MAX_SAVE_EXPONENT"),
             "/-- C: `SCALE_STEP_EXPONENT` (lib/lpc/object.c) -/\ndef scaleStepExponent : Nat := %s" % define("SCALE_STEP_EXPONENT"),
             "/-- default of the configuration item MaxArraySize (lib/rc/rc.cpp) -/\ndef maxArraySize : Nat := %s" % m2.group(1),
